@@ -1,16 +1,23 @@
 """C17: container / converter front-ends preserve the music (RMI, GMF, MUS, XMI).
 
-leg A  spec/ConvMC.tla     exhaustive small-scope exploration of the reference interpreters spec/MusRef.tla and
-                           spec/XmiRef.tla (every score of <= MaxLen events over an alphabet with every event type):
-                           channel-map injectivity, one event per score event, remembered volume, note-off pairing,
-                           schedule monotone, byte layout decodes back to the score
+leg A  spec/ConvImplMC.tla for EVERY score of <= MaxLen events over an alphabet with every event type TLC checks that
+                           play(Mus2Mid(encode(score))) conforms to MusRef(score) and play(Xmi2Mid(encode(file))) to
+                           XmiRef(file): spec/Mus2Mid.tla and spec/Xmi2Mid.tla are implementation-shaped models of
+                           src/cvt_mus2mid.hpp / src/cvt_xmi2mid.hpp, play is the reference SMF semantics (SmfRef) with exact
+                           times, the judges are the monitors of leg B; the listed findings F16c / F16d are reproduced by
+                           the model and classified `known`, anything else violates INVARIANT NoBad
+       spec/ConvMC.tla     self-consistency of the reference interpreters spec/MusRef.tla and spec/XmiRef.tla over the same
+                           enumerations: channel-map injectivity, one event per score event, remembered volume, note-off
+                           pairing, schedule monotone, byte layout decodes back to the score
 leg B  spec/ConvTrace.tla  property monitors evaluated by TLC on executions of the real library recorded by
                            harness/drive_conv.cpp: abstract MUS scores / XMI files / SMF songs are encoded to bytes, loaded
                            with opn2_openData, played tick-driven in exact stepping; the raw-event-hook deliveries are judged
                            against MusRef / XmiRef / SmfRef (events per tick group, times, selected song, songs count,
                            wrapped = bare)
-No implementation model of the converters exists, hence no refinement leg: the level is 'exploration'."""
-import json, os, random, time
+leg C  spec/ConvTrace.tla  refinement (drift only, never a verdict): the harness command Cvt calls Convert_mus2midi /
+                           Convert_xmi2midi_multi directly on the encoded bytes and records the produced SMF in abstract form;
+                           TLC compares it with Mus2Mid / Xmi2Mid applied to the same bytes (first differing event)."""
+import json, os, random, re, time
 import checks, vcommon as vc, vtrace, gen_conv
 
 HARNESS, TRACE = "drive_conv", "ConvTrace"
@@ -30,6 +37,8 @@ ASSUME = [
     "release velocities and the value byte of MUS channel-mode messages (CC120-127) are not defined by the source formats and are not compared",
     "GMF is generated in two shapes (track body with its End-of-Track; track body ending with the End-of-Track's delta time only, the shape the library's own end tag completes); RMI as RIFF/RMID/data (+ optional trailing LIST chunk)",
     "TLC 1.8 evaluates MusRef/XmiRef/SmfRef/ConvTrace correctly; JSON traces round-trip integers < 2^31 (times saturate at 2147 s)",
+    "leg C: the harness calls the converter functions with the arguments parseMUS / parseXMI pass (frequency 0; image + 20 zero bytes, XMIDI_CONVERT_NOCONVERSION) and its SMF reader (~45 lines) turns their output into <<delta, status, data...>> lists",
+    "leg A plays the model's SMF with the reference SMF semantics (SmfRef) and exact rational times, not with the sequencer model Seq.tla: ordering inside a tick and the lone-End-of-Track rule are C07's subject",
 ]
 
 
@@ -43,13 +52,31 @@ def jobs():
 
 def model_phase(q):
     runs = []
+    # implementation models against the references (the leg-A result proper)
+    for fmt in ("mus", "xmi"):
+        tier = "quick" if q else "thorough"
+        r = vc.run_tlc("ConvImplMC", cfg="ConvImplMC_%s_%s.cfg" % (fmt, tier), timeout=120 if q else 3000, heap="8g", workers=jobs(),
+                       tag="ConvImplMC-" + fmt)
+        r.scope = {"module": "ConvImplMC", "format": fmt, "max_events": (3 if fmt == "mus" else 2) if q else 3, "alphabet": 42 if fmt == "mus" else 33,
+                   "tempi": [500000, 480000] if fmt == "xmi" else None}
+        r.witnesses = [ln.strip().strip('"').replace('\\"', '"') for ln in r.out.splitlines() if "WITNESS" in ln and ln.lstrip().startswith('"')]
+        runs.append(r)
+    # self-consistency of the reference interpreters
     for fmt in ("mus", "xmi"):
         n = 3 if q else 4
         cfg = checks.write_cfg("ConvMC_%s_%d.cfg" % (fmt, n), MC_CFG % {"fmt": fmt, "n": n})
         r = vc.run_tlc("ConvMC", cfg=cfg, timeout=3000, heap="8g", workers=jobs(), tag="ConvMC-" + fmt)
-        r.scope = {"format": fmt, "max_events": n, "alphabet": 42 if fmt == "mus" else 30}
+        r.scope = {"module": "ConvMC", "format": fmt, "max_events": n, "alphabet": 42 if fmt == "mus" else 30}
+        r.witnesses = []
         runs.append(r)
     return runs
+
+
+def model_counterexample(out):
+    """the state TLC prints for a violated NoBad: the score prefix and the labels"""
+    m = re.findall(r"/\\ bad = (\{[^\n]*\})", out)
+    sc = re.findall(r"/\\ sc = (<<.*?>>)\n/\\", out, re.S)
+    return "bad = %s for sc = %s" % (m[-1] if m else "?", re.sub(r"\s+", " ", sc[-1])[:400] if sc else "?")
 
 
 def make_histories(rng, q):
@@ -57,7 +84,7 @@ def make_histories(rng, q):
     # the ConvMC alphabets replayed on the real library (defect-triggering shapes separately, so that they stay few)
     parts.append(("mus_exhaustive_short", [gen_conv.mus_history(s) for s in gen_conv.mus_exhaustive(2)]))
     parts.append(("mus_exhaustive_all_shapes", [gen_conv.mus_history(s) for s in gen_conv.mus_exhaustive(1, skip=(), pitch_even=False)]))
-    parts.append(("xmi_exhaustive_short", [[gen_conv.INIT, f, {"e": "Load"}, {"e": "Play"}] for f in gen_conv.xmi_exhaustive(2)]))
+    parts.append(("xmi_exhaustive_short", [[gen_conv.INIT, f, gen_conv.CVT, {"e": "Load"}, {"e": "Play"}] for f in gen_conv.xmi_exhaustive(2)]))
     mus = []
     for i in range(260 if q else 4000):
         nev = rng.choice([1, 3, 8, 20, 40] if q else [1, 3, 8, 20, 40, 80, 150])
@@ -66,6 +93,7 @@ def make_histories(rng, q):
     for i in range(12 if q else 120):
         mus.append(gen_conv.mus_history(gen_conv.mus_score(rng, 60, nchan=15, perc=True)))
     parts.append(("mus_random", mus))
+    parts.append(("mus_malformed_convert_only", [gen_conv.mus_malformed_history(rng, rng.choice([1, 3, 8, 20])) for _ in range(300 if q else 3000)]))
     xmi = []
     for i in range(200 if q else 3000):
         odd = rng.random() < 0.08
@@ -115,7 +143,9 @@ def check_c17(pid, tier, replay):
 
     parts = make_histories(rng, q)
     histories = [h for (_, hs) in parts for h in hs]
-    samples = sample(parts[3][1], 1) + sample(parts[4][1], 1) + sample(parts[5][1], 1) + sample(parts[0][1][40:], 1)
+    byname = dict(parts)
+    samples = sample(byname["mus_random"], 1) + sample(byname["xmi_random"], 1) + sample(byname["rmi_gmf_wrappings"], 1) + \
+        sample(byname["mus_exhaustive_short"][40:], 1) + sample(byname["mus_malformed_convert_only"], 1)
     random.Random(vc.seed()).shuffle(histories)       # balance the chunks
     failures, counters, stats = vtrace.run_histories(pid, HARNESS, TRACE, histories, nchunks=jobs(), tlc_timeout=2400)
     if stats["infra"]:
@@ -141,10 +171,22 @@ def check_c17(pid, tier, replay):
         "samples": samples,
         "model_runs": [{"scope": r.scope, "ok": r.ok, "violation": r.violation, "distinct": r.distinct, "generated": r.generated,
                         "wall_s": round(r.wall, 1)} for r in mruns],
+        "model_known_witnesses": [w for r in mruns for w in r.witnesses],
+        "refinement": {"converter_outputs_checked_against_model": c.get("refined", 0), "mus": c.get("refMus", 0), "xmi": c.get("refXmi", 0),
+                       "songs": c.get("refSongs", 0), "smf_events_compared": c.get("refEvents", 0), "skipped": c.get("refskip", 0),
+                       "rejections_agreed": c.get("refRejected", 0), "drifted": c.get("drifted", 0), "first_drifts": stats.get("drift", [])[:5]},
         "exhaustive": False,
     }
     for r in mruns:
         if r.violation or not r.ok:
-            print("MODEL-DRIFT: ConvMC %s reports %s (the reference interpreter is inconsistent with itself; not a verdict on the code)"
-                  % (r.scope, r.violation or ("rc=%s" % r.rc)))
-    return checks.conclude(pid, tier, "exploration", histories, failures, rerun, coverage, t0, ASSUME, max_report=8)
+            if r.scope["module"] == "ConvImplMC":
+                print("MODEL-DRIFT: ConvImplMC %s reports %s: %s (the converter MODEL does not conform to the reference; not a verdict on the code)"
+                      % (r.scope, r.violation or ("rc=%s" % r.rc), model_counterexample(r.out) if r.violation else r.out[-300:].replace("\n", " ")))
+            else:
+                print("MODEL-DRIFT: ConvMC %s reports %s (the reference interpreter is inconsistent with itself; not a verdict on the code)"
+                      % (r.scope, r.violation or ("rc=%s" % r.rc)))
+    if c.get("drifted", 0):
+        print("MODEL-DRIFT: %d of %d recorded converter outputs differ from spec/Mus2Mid.tla / spec/Xmi2Mid.tla (refinement leg C); first: %s"
+              % (c["drifted"], c.get("refined", 0), json.dumps(stats.get("drift", [])[:2])))
+    level = "model_checking" if coverage["states"] > 0 else "exploration"
+    return checks.conclude(pid, tier, level, histories, failures, rerun, coverage, t0, ASSUME, max_report=8)
